@@ -6,7 +6,7 @@ import json
 from . import common as C
 
 ALPHABET = [0x00, 0x7F, 0x80, 0xBF, 0xC0, 0xC1, 0xC2, 0xDF, 0xE0, 0xED, 0xEF, 0xF0, 0xF4, 0xF5, 0xFF, 0x9F, 0xA0, 0x8F, 0x90]
-THEOREMS = ["decode_spec", "decode_width", "range_spec", "encode_spec", "spec_decode_encode", "decode_encode",
+THEOREMS = ["literal_roundtrip", "literal_ascii", "decode_spec", "decode_width", "range_spec", "encode_spec", "spec_decode_encode", "decode_encode",
             "encode_nonscalar", "core_specO"]
 RUNE_BOUNDS = [0, 0x7F, 0x80, 0x7FF, 0x800, 0xD7FF, 0xD800, 0xDFFF, 0xE000, 0xFFFD, 0xFFFF, 0x10000, 0x10FFFF, 0x110000,
                0x7FFFFFFF, -1, -0x80000000]
@@ -106,6 +106,21 @@ def run(tier, seed):
     impl = C.run_node(ops)
     model = C.run_driver("C14", ops)
     chk.compare("prelude-utf8", ops, impl, model, kind=kind)
+    # --- string literals: real encodeString (hook) -> literal text; the engine's reading of it; vs the model ---
+    C.build_gvh("gvh_c14")
+    strs = [[b] for b in range(256)] + [[a, b] for a in (34, 92, 0, 10, 13, 8, 0x7F, 0x80, 0xFF, 120, 47, 42) for b in (34, 92, 120, 48, 65, 10, 0xE2, 47, 42)]
+    for _ in range(20000 if tier == "thorough" else 3000):
+        n = chk.rng.choice([1, 2, 3, 8, 30])
+        strs.append([chk.rng.choice([chk.rng.randrange(256), chk.rng.choice([34, 92, 10, 13, 0, 9, 11, 12, 8, 0x7E, 0x7F, 0x1F, 0x20, 0x2F, 0x2A, 120])])
+                     for _ in range(n)])
+    strs.append(list(b"/* not a comment */ // nor this \\x41 \\\" ' ` ${x}"))
+    hexs_ = [C.hexs(s) for s in strs]
+    lit_impl = C.run_gvh_lines([], hexs_, name="gvh_c14")
+    enc_ops = ["utf8 encstr %s" % h for h in hexs_]
+    chk.compare("encodeString", enc_ops, lit_impl, C.run_driver("C14", enc_ops), kind=lambda o, a: "encstr")
+    # the engine's reading of the REAL literal must be the original bytes (spec) and equal the model's reading
+    js_ops = ["utf8 jslit %s" % l for l in lit_impl]
+    chk.compare("literal-value", js_ops, C.run_node(js_ops), C.run_driver("C14", js_ops), spec=hexs_, kind=lambda o, a: "jslit")
     chk.extra["exhaustive"] = False
     chk.extra["exhaustive_subspace"] = "all byte strings of length <= %d over %d boundary bytes x all positions" % (
         4 if tier == "thorough" else 3, len(ALPHABET))
